@@ -356,6 +356,14 @@ class Index:
             if cq in self.classes:
                 f = self.find_method(cq, m)
         if f is None:
+            # the function may have moved between class and module level (a method that uses no `self` turned into a
+            # module-level helper, or back): accept the one function of the same module with the same bare name
+            cq, _, m = qual.rpartition(".")
+            modname = cq if cq in {u.modname for u in self.units.values()} else cq.rpartition(".")[0]
+            same = [g for q, g in self.functions.items() if g.name == m and g.unit.modname == modname and g.parent is None]
+            if len(same) == 1:
+                f = same[0]
+        if f is None:
             raise AnalysisError(f"anchor=function:{qual} not found")
         return f
 
